@@ -43,7 +43,13 @@ CLAIM = dict(
          'completed sweeps only. (3) QR (Z = QR) and maxvol (B Q[ind] = Q, C08) contracts are hypotheses, validated '
          'on every recorded call. (4) that the cores saved at sweep start are "the tensor of the previous sweep" is '
          'validated with independent snapshots, not proved. (5) equality up to rounding is a float fact: dense '
-         'comparison at 1e-6 in search().',
+         'comparison at 1e-6 in search(). Cross-cutting families run on every check (search and, where the model '
+         'expresses them, correspondence): argument forms (int / F-ordered / non-contiguous / tuple cores, NumPy '
+         'scalars, 0-d arrays and floats for m / e / nswp / dr_min / dr_max / e_vld, list / int32 / float32 validation '
+         'data, explicit defaults; nested-list cores are undocumented and raise AttributeError - allowed), call '
+         'histories (shared info dict, default info, the same Y0 / I_vld / y_vld / cache objects reused: arguments '
+         'bit-identical, cache only grows), scales and degenerate shapes (objective times 2^+-300, constant and zero '
+         'objective, mode size 1, d = 2, rho = 1).',
     technique='Coq proof (lock-step simulation of two runs of a small-step machine; inductive invariants; ring algebra '
               'of interpolation carried through the instantiated driver) + exact replay correspondence of '
               'cached/uncached pairs + instantiated model run at the float instance with replayed QR / maxvol vs '
